@@ -10,6 +10,9 @@ Sentence ↔ theorem
   (all ten bodies incl. Announce and Management, any header, any valid TLV set incl. empty-valued TLVs,
    any trailing bytes; `WF` = the value ranges of the Rust field types + enum payloads in the range their
    variant parses from — outside it the library does NOT round-trip: known finding F-C41c)
+  `serialisable_lt_65536` / `oversize_refused`: "can serialise" means shorter than 2^16 octets — the encoder's checked
+  u16 conversion of messageLength refuses anything longer (`Error::Invalid`) instead of writing a truncated length
+  that would not parse back (boundary example: a 65 536-octet Sync is refused; the 65 534 / 65 532-octet side is exercised by the `sz` cases of stream c41_typed).
 * "every message it parses re-serialises to the parsed prefix of the input"            → `parse_then_ser`
   Proved up to the registered known finding F-C41b: re-serialising a parsed message into a zeroed buffer of at
   least `messageLength` octets yields EXACTLY `canon (b.take messageLength)`, where `canon` (see `canonHeader`,
@@ -158,6 +161,26 @@ theorem counterexample : ¬ ParseThenSerStrict := by
   revert hS
   decide +kernel
 
+/-- Whatever the library serialises is shorter than 2^16 octets and has exactly `wire_size` octets. -/
+theorem serialisable_lt_65536 (m : Message) (buf out : Bytes) (h : m.serialize buf = .ok out) :
+    out.length = 34 + m.body.wireSize + m.suffix.length ∧ out.length < 2 ^ 16 :=
+  Message.serialize_size m buf out h
+
+/-- A message of 2^16 octets or more is refused with `Error::Invalid` (never serialised with a truncated
+    messageLength), for any buffer that passes the header / body split. -/
+theorem oversize_refused (m : Message) (buf : Bytes) (hbuf : 34 + m.body.wireSize ≤ buf.length)
+    (heven : m.suffix.length % 2 = 0) (hbig : 2 ^ 16 ≤ 34 + m.body.wireSize + m.suffix.length) :
+    m.serialize buf = .error .invalid :=
+  Message.serialize_oversize m buf hbuf heven hbig
+
+/-- boundary, upper side: a Sync with a 65 492-octet suffix is 65 536 octets long and is refused -/
+example (buf sfx : Bytes) (hb : 44 ≤ buf.length) (hs : sfx.length = 65492) :
+    ({ header := wHeader, body := .sync ⟨0, 0⟩, suffix := sfx } : Message).serialize buf = .error .invalid :=
+  oversize_refused _ buf (by simpa [Body.wireSize] using hb) (by simp [hs]) (by simp [Body.wireSize, hs])
+
+/-- (suffixes of these lengths exist) -/
+example : (List.replicate 65492 (0 : UInt8)).length = 65492 := List.length_replicate ..
+
 /-! ### non-vacuity -/
 
 /-- an Announce with every flag set, a profile-specific accuracy and two TLVs, the last one EMPTY: meets the
@@ -192,6 +215,8 @@ end NtpVerif.C41
 
 #print axioms NtpVerif.C41.ser_then_parse
 #print axioms NtpVerif.C41.builder_sets_valid
+#print axioms NtpVerif.C41.serialisable_lt_65536
+#print axioms NtpVerif.C41.oversize_refused
 #print axioms NtpVerif.C41.parse_total
 #print axioms NtpVerif.C41.iterate_total
 #print axioms NtpVerif.C41.parse_then_ser_partial
